@@ -523,6 +523,8 @@ def native_quadrature_replay(o=None):
 
 
 def run(R):
+    from engine.canary import run_canaries
+    run_canaries(R, ('symx',))
     R.assume('A1', 'A4', 'A6')
     R.trust('scipy RegularGridInterpolator: exact at nodes, exact on multilinear fields for method="linear" (A4, exercised numerically)')
     R.trust('theta quadrature: the mid-point rule is second-order accurate for smooth integrands (observed, not proved)')
